@@ -110,6 +110,10 @@ def run(ctx, res):
         for c in GRID:
             for fl in FLAGSETS:
                 tasks.append(("pair", rng.randrange(ncreds), (s, c, fl)))
+    # stored counters wider than 32 bits (an RP's integer column holds what it holds): no 32-bit counter exceeds them
+    for s in (2 ** 32, 2 ** 32 + 7, 2 ** 40, 2 ** 63 - 1, 2 ** 64 + 1):
+        for c in (0, 1, 8, 2 ** 31, 2 ** 32 - 1):
+            tasks.append(("pair", rng.randrange(ncreds), (s, c, FLAGSETS[(s + c) % len(FLAGSETS)])))
     for cnt in PATTERN_COUNTERS:
         for s in (cnt, cnt - 1, cnt + 1, 0):
             for fl in FLAGSETS[:3]:
